@@ -5,7 +5,7 @@ from mc import core, det, xstate
 PROPERTY = 'C20'
 ENGINE = 'E2 explicit-state BFS to fixpoint over the real persistent dictionaries (canonical state = ordered items + closed flag) + all histories up to depth k without dedup'
 LEVEL = 'model_checking'
-DIRECTED_ADDITIONS = 'PickledDict under a relative path with the working directory elsewhere between open and sync/close, from_dict independence, memoryview in the refused family, one scripted scale history per class (KiB values, hundreds of keys, six reopen / sync points)'      # members added during the seeded-change campaign (DESIGN 7); counted under their own vacuity counters
+DIRECTED_ADDITIONS = 'sync / close while the OS accepts only part of the write (file-size limit), PickledDict under a relative path with the working directory elsewhere between open and sync/close, from_dict independence, memoryview in the refused family, one scripted scale history per class (KiB values, hundreds of keys, six reopen / sync points)'      # members added during the seeded-change campaign (DESIGN 7); counted under their own vacuity counters
 
 
 KEYS = [b'k1', b'k2', b'\x00', b'']
@@ -48,6 +48,8 @@ def units(tier, seed):
         us.append(('dfs/%s' % cls, {'kind': 'dfs', 'cls': cls}))
         us.append(('fromdict/%s' % cls, {'kind': 'fromdict', 'cls': cls}))
         us.append(('scale/%s' % cls, {'kind': 'scale', 'cls': cls}))
+    # the operating system accepts only part of what sync / close writes (file-size limit: the same answer as a full disk or a quota)
+    us.append(('short-write/PickledDict', {'kind': 'short-write', 'cls': 'PickledDict'}))
     # the dictionary named by a RELATIVE path, the process' working directory somewhere else whenever it is not opening or creating
     us.append(('dfs-relative/PickledDict', {'kind': 'dfs', 'cls': 'PickledDict', 'relative': True}))
     us.append(('bfs-relative/PickledDict', {'kind': 'bfs', 'cls': 'PickledDict', 'nk': 2, 'relative': True}))
@@ -466,9 +468,91 @@ def run_scale(r, seed, clsname):
     shutil.rmtree(home, ignore_errors=True)
 
 
+def run_short_write(r, seed, clsname, only=None):
+    """sync / close while the OS refuses to let the file grow beyond a limit (RLIMIT_FSIZE, soft, put back afterwards; Python
+    ignores SIGXFSZ, so the write fails with EFBIG or is accepted in part).  Demanded: a sync / close that RETURNS has stored the
+    contents - opening the file gives exactly them; a sync / close that raises is the environment's refusal, loud, and nothing is
+    demanded of the file then."""
+    import resource, data_persistence.persistent_dict as pd
+    cls = getattr(pd, clsname)
+    home = det.workdir('c20short')
+    g = det.rng(seed, 'c20-short', clsname)
+    soft0, hard0 = resource.getrlimit(resource.RLIMIT_FSIZE)
+    n = 0
+    for limit in (4096, 65536):
+        for total in (limit // 2, limit - 300, limit + 1, 2 * limit, 4 * limit + 17):
+            for op in ('sync', 'close'):
+                n += 1
+                if only is not None and only != [limit, total, op]:
+                    continue
+                case = {'cls': clsname, 'file_size_limit': limit, 'payload_bytes': total, 'op': op}
+                core.note_case(case)
+                path = os.path.join(home, 'd%d' % n)
+                model = {}
+                d = cls.create(path)
+                left = total
+                i = 0
+                while left > 0:
+                    v = g.randbytes(min(left, 1500))
+                    d[b'k%04d' % i] = v
+                    model[b'k%04d' % i] = v
+                    left -= len(v)
+                    i += 1
+                r['evaluations'] += 1
+                r['states'] += 1
+                r['transitions'] += i + 2
+                r['nontrivial'] += 1
+                resource.setrlimit(resource.RLIMIT_FSIZE, (limit, hard0))
+                try:
+                    try:
+                        getattr(d, op)()
+                        returned = True
+                    except OSError:
+                        returned = False
+                    except Exception as e:
+                        returned = False
+                        r.count('short-write-other-exception:' + type(e).__name__)
+                finally:
+                    resource.setrlimit(resource.RLIMIT_FSIZE, (soft0, hard0))
+                if not returned:
+                    r.count('short-write-refused-loudly (nothing demanded of the file)')
+                    r.outcome('short-write/raises')
+                    try:
+                        d.close()
+                    except Exception:
+                        pass
+                    continue
+                r.count('short-write-returned')
+                try:
+                    if op == 'sync':
+                        import shutil as _sh
+                        _sh.copyfile(path, path + '.copy')
+                        again = cls.open(path + '.copy')
+                    else:
+                        again = cls.open(path)
+                    try:
+                        got = {k: bytes(again[k]) for k in again}
+                    finally:
+                        again.close()
+                    if got != model:
+                        r.v(PROPERTY, clsname, 'contents-differ-after-%s-and-open' % op, 'partly-accepted-write', case, '%d keys as at the %s' % (len(model), op), '%d keys' % len(got))
+                    else:
+                        r.outcome('short-write/stored')
+                except Exception as e:
+                    r.v(PROPERTY, clsname, 'cannot-open-after-%s' % op, 'partly-accepted-write', case, 'a %s that returned has stored the dictionary' % op, core.exc_text(e))
+                try:
+                    d.close()
+                except Exception:
+                    pass
+    shutil.rmtree(home, ignore_errors=True)
+
+
 def run_unit(p, tier, seed):
     r = core.Result()
     clsname = p['cls']
+    if p['kind'] == 'short-write':
+        run_short_write(r, seed, clsname)
+        return r
     if p['kind'] == 'scale':
         run_scale(r, seed, clsname)
         return r
@@ -522,6 +606,9 @@ def replay(case, seed):
     r = core.Result()
     if 'from_dict' in case:
         run_fromdict(r, seed, case['cls'])
+        return r['violations']
+    if 'file_size_limit' in case:
+        run_short_write(r, seed, case['cls'], only=[case['file_size_limit'], case['payload_bytes'], case['op']])
         return r['violations']
     if 'scale_checkpoint' in case:
         run_scale(r, seed, case['cls'])
